@@ -416,7 +416,6 @@ func bigConst(v ssa.Value) string {
 	return ""
 }
 
-
 // c18RequestReader: the call is to a function that does nothing but read the queue /
 // pending-oracle-request prefixes of the random store (a getter or snapshot of the
 // stored requests).
@@ -450,7 +449,6 @@ func (cx *Ctx) c18RequestReader(t *Term) bool {
 	}
 	return n > 0
 }
-
 
 // noWrapFact: among the facts one that excludes wrap-around of sum = base + n:
 // ¬(sum < base) (in any of its spellings), or a constant upper bound n ≤ K, K ≤ 2^62.
